@@ -82,9 +82,7 @@ Section Spec.
 
   (** what each kind of failure of the resolver must be justified by: a reachable line that points
       at no configured file (with that line's path string and path position), resp. that names a
-      fragment its target does not define (with that name's position); the panic of the current
-      code corresponds to a line all of whose names are defined but which has more names than
-      matching fragments *)
+      fragment its target does not define (with that name's position) *)
   Definition Justified (doc : key) (imps : list import) (e : ierr) : Prop :=
     match e with
     | FileNotFound file p =>
@@ -92,9 +90,6 @@ Section Spec.
     | FragmentNotFound n file p =>
         exists k i f, RL doc imps k i /\ lookup st k = Some f /\ In (n, p) (missing_names f i)
                       /\ file = ipath i
-    | PanicMissingTarget =>
-        exists k i f ts, RL doc imps k i /\ lookup st k = Some f /\ itargets i = Specific ts
-                         /\ missing_names f i = [] /\ length (wanted f i) < length ts
     | OutOfFuel => True
     end.
 
@@ -178,18 +173,12 @@ Section Spec.
     && agree_b (all_lines root_path root ks)
     && rootsep_b root (all_lines root_path root ks).
 
-  (** additional guard for the error theorems: fragment names unique per file, target names
-      unique per (merged) line *)
-  Definition frag_names (f : file) : list str := map def_name (filter def_is_frag (fdefs f)).
   Definition target_names (i : import) : list str :=
     match itargets i with Wildcard => [] | Specific ts => map fst ts end.
 
   Definition error_guard_b (root_path : key) (root : file) (ks : list key) : bool :=
     closed_b root_path root ks && agree_b (all_lines root_path root ks).
 
-  Definition names_guard_b (ks : list key) (ls : list (key * import)) : bool :=
-    forallb (fun k => match lookup st k with Some f => nodup_strs (frag_names f) | None => true end) ks
-    && forallb (fun l => nodup_strs (target_names (snd l))) ls.
 End Spec.
 
 (** * The guards at [ks := reach_b]: they speak about reachable lines only *)
@@ -198,10 +187,6 @@ Definition guard_exact (st : store) (root_path : key) (root : file) : bool :=
   distinct_b st root ks
   && agree_b st (all_lines st root_path root ks)
   && rootsep_b st root (all_lines st root_path root ks).
-
-Definition guard_names (st : store) (root_path : key) (root : file) : bool :=
-  let ks := reach_b st root_path root in
-  names_guard_b st ks (all_lines st root_path root ks).
 
 
 (** * The property at full strength (no guard) — refuted for the current code, see
@@ -214,8 +199,6 @@ Definition imports_error_iff_full : Prop :=
   forall st root_path root,
     BadLine st root_path (fimports root) <->
     exists e, resolve_imports st root_path root = inl e /\ positioned e = true.
-Definition imports_no_panic_full : Prop :=
-  forall st root_path root, resolve_imports st root_path root <> inl PanicMissingTarget.
 
 (** * Reference reading of [resolve_operation_extensions]
 
